@@ -16,7 +16,7 @@ Proof. exact (conj (proj1 (no_pointer_order_spec no_pointer_order_ok)) (conj (pr
 Print Assumptions C13_no_pointer_keyed_container_is_iterated.
 
 Theorem C13_inventory_nonvacuous : (length containers >= 20)%nat /\ existsb c_ptr containers = true.
-Proof. split; [vm_compute; repeat constructor | vm_compute; reflexivity]. Qed.
+Proof. exact inventory_nonvacuous. Qed.
 Print Assumptions C13_inventory_nonvacuous.
 
 (* the pending reference tables are walked in file order, whatever the addresses of the parsed elements are *)
